@@ -241,7 +241,9 @@ pub trait Subject: Sized {
     fn fresh_leaf(&self, salt: u64) -> Self;
     /// Triage aid, NOT part of the contract: names a known way in which this implementor loses a
     /// pending up-jump after child `after_kid` of `n_kids` (see `RefWalk::quirk`).
-    fn known_jump_loss(&self, _after_kid: usize, _n_kids: usize) -> Option<&'static str> {
+    /// The second component is the number of following children the implementor is known to skip
+    /// together with the lost jump.
+    fn known_jump_loss(&self, _after_kid: usize, _n_kids: usize) -> Option<(&'static str, usize)> {
         None
     }
 }
@@ -378,17 +380,22 @@ impl<'c> RefWalk<'c> {
             if !kids.is_empty() {
                 let n = kids.len();
                 let mut out = Vec::with_capacity(n);
+                let mut skip = 0usize;
                 for (i, k) in kids.into_iter().enumerate() {
                     if self.halted() {
+                        out.push(k);
+                    } else if skip > 0 {
+                        skip -= 1;
                         out.push(k);
                     } else {
                         // an unvisited child: a pending up-jump ends here
                         self.mode = Mode::Normal;
                         out.push(self.walk(k));
                         if self.quirk && self.mode == Mode::JumpUp {
-                            if let Some(q) = node.known_jump_loss(i, n) {
+                            if let Some((q, s)) = node.known_jump_loss(i, n) {
                                 self.mode = Mode::Normal;
                                 self.quirks_used.push(q);
+                                skip = s;
                             }
                         }
                     }
@@ -416,22 +423,22 @@ impl<'c> RefWalk<'c> {
         if kids.is_empty() {
             return (node, Rec::Continue);
         }
-        let n = kids.len();
-        let (out, mut last) = self.siblings(kids);
-        if self.quirk && last == Rec::Jump && !self.halted() {
-            if let Some(q) = node.known_jump_loss(n - 1, n) {
-                last = Rec::Continue;
-                self.quirks_used.push(q);
-            }
-        }
+        let (out, last) = self.siblings(kids, Some(&node));
         (node.rebuild(out), last)
     }
 
-    fn siblings<N: Subject>(&mut self, elems: Vec<N>) -> (Vec<N>, Rec) {
+    fn siblings<N: Subject>(&mut self, elems: Vec<N>, parent: Option<&N>) -> (Vec<N>, Rec) {
         let mut last = Rec::Continue;
-        let mut out = Vec::with_capacity(elems.len());
-        for k in elems {
+        let n = elems.len();
+        let mut out = Vec::with_capacity(n);
+        let mut skip = 0usize;
+        for (i, k) in elems.into_iter().enumerate() {
             if self.halted() {
+                out.push(k);
+                continue;
+            }
+            if skip > 0 {
+                skip -= 1;
                 out.push(k);
                 continue;
             }
@@ -443,6 +450,13 @@ impl<'c> RefWalk<'c> {
                     last = x;
                     if x == Rec::Stop {
                         self.mode = Mode::Stopped;
+                    }
+                    if self.quirk && x == Rec::Jump {
+                        if let Some((q, s)) = parent.and_then(|p| p.known_jump_loss(i, n)) {
+                            last = Rec::Continue;
+                            self.quirks_used.push(q);
+                            skip = s;
+                        }
                     }
                 }
             }
@@ -597,6 +611,11 @@ pub fn real<N: Subject + TreeNode>(api: Api, node: N, policy: Policy) -> Outcome
 
 /// first aspect in which the observation differs from the contract
 pub fn diff<N: Subject>(exp: &Outcome<N>, got: &Outcome<N>) -> Option<&'static str> {
+    diff_opt(exp, got, false)
+}
+
+/// `ignore_rec`: the API does not document the `TreeNodeRecursion` it returns
+pub fn diff_opt<N: Subject>(exp: &Outcome<N>, got: &Outcome<N>, ignore_rec: bool) -> Option<&'static str> {
     if exp.log != got.log {
         return Some("visit-sequence");
     }
@@ -614,7 +633,7 @@ pub fn diff<N: Subject>(exp: &Outcome<N>, got: &Outcome<N>) -> Option<&'static s
     if exp.flag != got.flag {
         return Some("flag");
     }
-    if exp.rec != got.rec {
+    if exp.rec != got.rec && !ignore_rec {
         return Some("tnr");
     }
     if exp.found != got.found {
@@ -650,13 +669,19 @@ pub fn maybe_corrupt<N>(got: &mut Outcome<N>) {
 /// is exactly what the contract plus a *known* jump loss of the implementor predicts, the violation
 /// gets that root cause as its signature instead of `<aspect>/<api>/<type>`.
 pub fn judge<N: Subject>(rep: &Report, api: Api, api_name: &str, ty: &str, input: &N, exp: &Outcome<N>, got: &Outcome<N>, replay: impl FnOnce() -> Policy) {
-    let Some(kind) = diff(exp, got) else { return };
+    judge_opt(rep, api, api_name, ty, input, exp, got, replay, false)
+}
+
+#[allow(clippy::too_many_arguments)]
+pub fn judge_opt<N: Subject>(rep: &Report, api: Api, api_name: &str, ty: &str, input: &N, exp: &Outcome<N>, got: &Outcome<N>, replay: impl FnOnce() -> Policy, ignore_rec: bool) {
+    let Some(kind) = diff_opt(exp, got, ignore_rec) else { return };
     let (exp_q, _, quirks) = reference_q(api, input.dup(), replay(), true);
     let sig = match quirks.first() {
-        Some(q) if diff(&exp_q, got).is_none() => format!("{q}/{ty}"),
+        Some(q) if diff_opt(&exp_q, got, ignore_rec).is_none() => q.to_string(),
         _ => format!("{kind}/{api_name}/{ty}"),
     };
     rep.count(&format!("violations/{sig}"), 1);
+    rep.count(&format!("violations_by_type/{sig}/{ty}/{api_name}"), 1);
     rep.violation(
         &sig,
         json!({"type": ty, "api": api_name, "input_tree": input.show(), "expected_by_contract": exp.to_json(), "observed": got.to_json()}),
@@ -1004,9 +1029,9 @@ impl Subject for TNode {
     fn fresh_leaf(&self, salt: u64) -> Self {
         TNode { id: leaf_id(salt), ..Default::default() }
     }
-    fn known_jump_loss(&self, after_kid: usize, n_kids: usize) -> Option<&'static str> {
+    fn known_jump_loss(&self, after_kid: usize, n_kids: usize) -> Option<(&'static str, usize)> {
         // (first, mid, last): with a single child `mid` and `last` are empty containers behind it
-        (after_kid + 1 == n_kids && self.last.is_none()).then_some(EMPTY_TRAILING)
+        (after_kid + 1 == n_kids && self.last.is_none()).then_some((EMPTY_TRAILING, 0))
     }
 }
 impl Harness for TNode {
@@ -1244,9 +1269,15 @@ where
                         t.kids.sort_by_key(|n| n.id);
                     }
                 }
+                if trailing_empty && exp.rec == Rec::Jump && got.rec == Rec::Continue && !exp.err {
+                    // What a tuple / Vec of containers answers when its last container is empty is
+                    // not documented (only iterators: "Continue if the iterator is empty"), so the
+                    // container level does not assert it; the tree APIs built on it do (EMPTY_TRAILING).
+                    rep.count("info/container_answers_continue_behind_empty_tail", 1);
+                    got.rec = exp.rec;
+                }
                 if let Some(kind) = diff(&exp, &got) {
-                    let known = kind == "tnr" && trailing_empty && exp.rec == Rec::Jump && got.rec == Rec::Continue;
-                    let sig = if known { format!("{EMPTY_TRAILING}/container") } else { format!("{kind}/{label}/{name}") };
+                    let sig = format!("{kind}/{label}/{name}");
                     rep.count(&format!("violations/{sig}"), 1);
                     rep.violation(&sig, json!({"container": name, "api": label, "elements": elems.iter().map(|e| e.show()).collect::<Vec<_>>(), "expected_by_contract": exp.to_json(), "observed": got.to_json()}));
                 }
@@ -1345,30 +1376,31 @@ fn run(args: &Args) -> i32 {
     rep.assume("callbacks honour their own contract: a node returned with transformed=false is the node that was passed in");
     rep.assume("the hand-written children accessors of the oracle (Subject::kids / rebuild) state the documented children order of Expr and LogicalPlan; for Arc<dyn PhysicalExpr> / Arc<dyn ExecutionPlan> the documented order is children()");
 
-    // the node bound of the exhaustive part: VecNode (the specification's harness type) 5 nodes;
-    // the other three implementations 4 nodes in the quick tier, 5 in the thorough tier
+    // the node bound of the exhaustive part: 5 nodes in the quick tier, 6 in the thorough tier for
+    // all four harness implementations (Miri: 4 for VecNode, 3 for the others)
     let max_nodes: [usize; 4] = if miri {
         let m = args.opt_u64("exh_nodes", 4) as usize;
         [m, 3, 3, 3]
     } else {
-        let v = args.bound("exh_nodes", 5, 5) as usize;
-        let o = args.bound("exh_nodes_other", 4, 5) as usize;
+        let v = args.bound("exh_nodes", 5, 6) as usize;
+        let o = args.bound("exh_nodes_other", 5, 6) as usize;
         [v, o, o, o]
     };
+    // `--opt part=impl` / `part=harness` restrict a run to one half (triage aid; coverage obligations
+    // of the other half then make the run inconclusive)
+    let part = args.opt_str("part").unwrap_or("all").to_string();
+    let max_nodes = if part == "impl" { [1, 1, 1, 1] } else { max_nodes };
     let shapes = run_exhaustive(&rep, args, max_nodes);
     rep.extra("exhaustive_max_nodes", json!({"VecNode": max_nodes[0], "ConcreteNode": max_nodes[1], "ArcDynNode": max_nodes[2], "TupleOptBoxNode": max_nodes[3]}));
     rep.extra("exhaustive_tree_shapes", json!(shapes.len()));
     rep.set_exhaustive(true);
-    run_containers(&rep, miri);
-
-    let n_rand = if miri { args.opt_u64("random", 200) } else { args.bound("random", 20_000, 600_000) };
-    run_random_harness(&rep, args, n_rand, stage_no, if miri { 8 } else { 12 });
-
-    if !miri {
-        let n_impl = args.bound("impl_cases", 20_000, 600_000);
-        impls::run_implementors(&rep, args, n_impl);
-    } else {
-        let n_impl = args.opt_u64("impl_cases", 60);
+    if part != "impl" {
+        run_containers(&rep, miri);
+        let n_rand = if miri { args.opt_u64("random", 200) } else { args.bound("random", 200_000, 6_000_000) };
+        run_random_harness(&rep, args, n_rand, stage_no, if miri { 8 } else { 12 });
+    }
+    if part != "harness" {
+        let n_impl = if miri { args.opt_u64("impl_cases", 60) } else { args.bound("impl_cases", 140_000, 4_200_000) };
         impls::run_implementors(&rep, args, n_impl);
     }
 
